@@ -1,18 +1,23 @@
 """C20 - JSON serialisation is lossless and the CLI reports exactly the library's tree."""
 import os
 
-LEVEL = "exploration"
-LEVEL_TEXT = ("structural equality is PROVED: Node.__eq__(a, b) == tree_eq(a, b) for all finite trees, where tree_eq compares type, value, obfuscation, start, end and, pairwise, the "
-              "children (list == on node lists modelled as CPython does it: equal lengths, then identity-or-__eq__ element by element; lemmas children-equal-pairwise and "
-              "tree-eq-reflexive proved in the same run) - so a difference in any field of any descendant, or a missing / extra child, makes trees unequal. Everything else is a "
-              "bounded stand-in (labelled as such): on seeded random trees (all byte values, non-ASCII labels, depth <= 4) tree_to_json produces valid JSON recording type, value (hex), "
-              "obfuscation, start, end and children; json_to_tree returns an equal tree with correct parent links; the CLI is run in a sub-process (file argument and stdin, binary input, "
-              "--json, default, --replace, --keywords) and compared with the library on the same bytes; squash_replace equals flatten when substituted results do not overlap")
-LEVEL_NOTE = ("the claimed level stays `exploration` because only the equality clause is proved; not proved: as_node(node_to_dict(n)) == n (dict / JSON values are outside the encoding), the CLI; "
-              "Node.__eq__ is proved for `other` a Node (isinstance is not modelled); json / argparse are trusted library code")
-DESIGN_REF = "DESIGN.md 6 (C20), 14"
-TECHNIQUE = "contract-based deductive verification of Node.__eq__ (pyvc, recursive specification function + two induction lemmas) + bounded run-time contract evaluation (round trip on random trees, CLI in a sub-process)"
-FUNCTIONS = ["multidecoder.node.Node.__eq__"]
+LEVEL = "proof"
+LEVEL_TEXT = ("the serialisation half is PROVED for all finite trees: node_to_dict(n) records n (dict_is: type, value as hex, obfuscation, start, end and, in order, the children, recursively); "
+              "as_node(d, parent) builds exactly the tree d records, with result.parent == parent and every child's parent link pointing at its parent (tree_is), out of newly allocated nodes only; "
+              "lemma json-round-trip: a tree that is what d records, where d records n, is structurally equal to n; Node.__eq__(a, b) == tree_eq(a, b), the field-wise, child-wise comparison "
+              "(so a difference in any field of any descendant, or a missing / extra child, makes trees unequal). Induction steps (pairwise / fold / monotonicity / frame lemmas over the recursive "
+              "specification functions) are discharged in the same run. The CLI half is a bounded stand-in (labelled as such): the CLI is run in a sub-process (file argument and stdin, binary "
+              "input, --json, default, --replace, --keywords) and compared with the library on the same bytes; squash_replace equals flatten when substituted results do not overlap; "
+              "the JSON round trip is also exercised on seeded random trees (all byte values, non-ASCII labels, depth <= 4) through the real json module")
+LEVEL_NOTE = ("ASSUMED: JSON objects are finite immutable records of the node_to_dict shape and json.dumps / json.loads return an equal object (the json module is trusted library code); "
+              "bytes.fromhex(x.hex()) == x; the well-founded orders behind the induction steps (tree height, then number of remaining children) are the meta-level part; composing the three results "
+              "uses that as_node writes no existing cell (its proved frame) - that dict_is is unaffected by such an allocation is argued, not discharged; Node.__eq__ is proved for `other` a Node "
+              "(isinstance is not modelled); the CLI (argparse, file handling, printing) is bounded only")
+DESIGN_REF = "DESIGN.md 6 (C20), 15, 16"
+TECHNIQUE = ("contract-based deductive verification of Node.__eq__, node_to_dict, as_node (pyvc: heap-parametric recursive specification functions, frame lemmas over two heaps, "
+             "induction-step lemmas) + bounded run-time contract evaluation for the CLI")
+FUNCTIONS = ["multidecoder.node.Node.__eq__", "multidecoder.json_conversion.node_to_dict", "multidecoder.json_conversion.as_node"]
+LEMMAS = ["json-round-trip"]
 RULE = "evaluations = trees / CLI runs compared; distinct = distinct trees with at least one child and distinct CLI modes"
 EXPLANATION = "bounded stand-in"
 SRC = os.environ.get("VERIF_SRC", "/repo/src")
